@@ -195,6 +195,7 @@ func c14Read(r *ev.Run, image []byte, table, index string, spec *dbgen.Spec, img
 	}
 	r.Eval(len(rows))
 	r.Trans(1)
+	r.Outcome(fmt.Sprintf("%v/%v/spill=%v", desc["family"], desc["builder"], img.Spill[t.Name] > 0))
 	for _, row := range rows {
 		// count cases that reach the mechanism
 		for _, v := range row.Vals {
